@@ -119,6 +119,26 @@ CHECKS["C10"] = {
 }
 CHECKS["C19"]["text"] = CHECKS["C19"]["text"] + " In the config store (unit config): ConfigActor::set_config adopts the replicated history-id high-water mark on every apply of an entry (also when the content is identical), and each history entry is stamped with the id carried by the entry."
 
+CHECKS["C02"] = {
+    "text": "Proof (Verus, unbounded), single log file scope: the real LogInnerManager keeps a data-structure invariant (exactly msg_count complete records fill "
+            "[4096, data_cursor); every byte behind the cursor is zero; every index entry points at the record boundary it names; the index area holds exactly the encoded "
+            "entries followed by zeros). An acknowledged write stores exactly the framed entry behind the entries already there, leaves them byte for byte, refuses any index "
+            "other than the end index, and preserves the invariant; the end-of-log scan (move_to_end / move_to_index_by_count) returns exactly the first n records for EVERY "
+            "chunking of the reads and stops exactly at the first zero length; read_indexs rebuilds exactly the index the area encodes; last index/term are those of the last entry.",
+    "note": "NOT under contract: RaftLogManager (rollover, LogRange catalogue, split_off, snapshot pointer files, batch replication) and FileStore — their state changes travel "
+            "through Addr::send and actix future chains; LogInnerManager::init and read_records/load_record are not yet under contract in this revision (reopen is covered through "
+            "the scan + index-decode contracts they are built from, not as one theorem). Two handles on one path are modelled as independent byte sequences; protobuf payload "
+            "encoding uninterpreted (a log entry is assumed never to encode to the empty message); get_start_index (closure-based binary search) assumed.",
+}
+CHECKS["C03"] = {
+    "text": "Proof (Verus, unbounded), single log file scope: strip_log_to(k) on the real LogInnerManager leaves every entry below k byte for byte, sets the end index to k (so the "
+            "next append at k is accepted by write's contract), pops exactly the index entries above the cut and rewinds the index cursor by exactly the bytes they occupy, and "
+            "re-establishes the invariant — in particular every byte behind the new data cursor and every popped index byte is zero, so no byte of the removed suffix can be read "
+            "back, also after a reopen; k >= end index changes nothing. get_file_index_by_log_index returns the greatest entry <= k with exact pop count and byte width.",
+    "note": "Multi-file selection in RaftLogManager::strip_log_to_index (rollover, compaction pointer, installed snapshot) is NOT under contract (actor message flow). Same modelling "
+            "assumptions as C02.",
+}
+
 NOT_APPLICABLE = {
     "C01": "equation between the states of seven actors across stop/restart; effects travel through Addr::send futures — no function-shaped contract can state it (DESIGN §6)",
     "C04": "crash points between file writes of several actors need a crash-Hoare logic over an external resource; neither Verus nor Kani models intermediate disk states (DESIGN §6)",
@@ -126,7 +146,5 @@ NOT_APPLICABLE = {
     "C07": "the three dispatch paths have no result and no &mut state; their behaviour is which message goes to which Addr, not expressible as a postcondition (DESIGN §6)",
     "C08": "snapshot installation across processes through actix future chains whose only effects are messages to other actors (DESIGN §6)",
     "C15": "convergence after quiescence across nodes: liveness over message schedules and node failures (DESIGN §6)",
-    "C02": "not yet built in this revision (planned: U-loginner)",
-    "C03": "not yet built in this revision (planned: U-loginner)",
     "C14": "not yet built in this revision (planned: U-processrange)",
 }
